@@ -1,6 +1,7 @@
 package main
 
 import (
+	"strconv"
 	"fmt"
 	"go/ast"
 	"go/token"
@@ -217,5 +218,25 @@ func genCursors() *leanFile {
 		lost = append(lost, streamGo+":applyReservedStreamOverrides (function not found)")
 	}
 	l.def("retentionOff", "Bool", fmt.Sprint(off), "the cursors stream is exempt from the server-wide retention limits")
+	// the key under which a cursor is stored: the format string of getCursorKey and the order of its arguments
+	keyFmt := ""
+	if fd := load("server/cursors.go").fn("cursorManager.getCursorKey"); fd != nil && fd.Body != nil {
+		f := load("server/cursors.go")
+		ast.Inspect(fd.Body, func(n ast.Node) bool {
+			if c, ok := n.(*ast.CallExpr); ok && nows(f.src(c.Fun)) == "fmt.Sprintf" && len(c.Args) == 4 {
+				if bl, ok := c.Args[0].(*ast.BasicLit); ok {
+					if v, err := strconv.Unquote(bl.Value); err == nil &&
+						nows(f.src(c.Args[1])) == "cursorID" && nows(f.src(c.Args[2])) == "streamName" && nows(f.src(c.Args[3])) == "partitionID" {
+						keyFmt = v
+					}
+				}
+			}
+			return true
+		})
+	}
+	if keyFmt == "" {
+		lost = append(lost, "server/cursors.go:getCursorKey (fmt.Sprintf(<format>, cursorID, streamName, partitionID) not found)")
+	}
+	l.def("keyFormat", "String", strconv.Quote(keyFmt), "getCursorKey: fmt.Sprintf(<this>, cursorID, streamName, partitionID)")
 	return l
 }
